@@ -411,6 +411,11 @@ class Krylov(Contract):
     def state_pred(self, ref, state):
         return state_ok(ref, state.old['operator'])
 
+    def on_scalar_product(self, ex, state, left, right, line):
+        ct = left.__dict__.get('conjT')
+        ex.ctx.oblige(state, 'sesquilinear-inner-product', line, z3.BoolVal(ct is True),
+                      'the bra of this inner product is %s' % ('a plain (not conjugated) transpose' if ct is False else 'not a conjugate transpose'))
+
     def setup(self, ex, state, inst):
         m0 = ex.ctx.mark0
         op = mk_tt(state, 'operator', m0)
